@@ -84,10 +84,14 @@ func TestVerif_C08(t *testing.T) {
 	defer os.RemoveAll(base)
 	R.Rule = "request = element of a bounded grammar: JSON-RPC {method alphabet} x {params shape} x {first-argument alphabet} x {options object within k single-key deviations of 'all absent', per-key alphabets of legal, illegal and ill-typed values} x {id alphabet}; HTTP method x path alphabets; every truncation and every single-byte substitution (6 bytes) of 10 valid bodies; gRPC: every combination of per-field alphabets for the five RPCs and request sequences of length <=2 on the Get stream (messages round-tripped through the wire encoding); each against 0, 1 and 2 loaded epochs (address index present in one). Oracle: the handler returns; non-trivial = request that is not a plain valid one"
 	// ---- worlds ----
-	shA := cargen.SimpleShape(1, 5, 4, 2)
+	shA := cargen.SimpleShape(1, 5, 5, 2)
 	shA.Blocks[1].Entries[0][0].Meta = cargen.PayloadShape{Pad: 400, FrameSize: 128}
 	shA.Blocks[2].Entries[0][1].Vote = true
 	shA.Blocks[3].Entries[0][0].Failed = true
+	// archive content that is legal to store but that the handlers must survive: status metadata no parser
+	// understands, and rewards whose commission strings are numeric, empty and not a number
+	shA.Blocks[4].Entries[0][1].MetaGarbage = true
+	shA.Blocks[2].Rewards = &cargen.PayloadShape{Commission: []string{"7", "", "n/a", "1e400", "0x10"}}
 	eA, err := vkBuildEpoch(filepath.Join(base, "A"), shA, true)
 	if err != nil {
 		R.Internal("build A: %v", err)
@@ -447,6 +451,42 @@ func TestVerif_C08(t *testing.T) {
 			grpcCaseW("StreamBlocks(client hangs up)", mb, true, func(w *c08World) {
 				w.multi.StreamBlocks(mb, &vkBlockStream{vkStreamBase: hangUp()})
 			})
+		}
+	}
+	// ---- valid requests over every block and transaction of epoch A, whose content includes metadata that no parser
+	// understands and rewards with odd commission strings ----
+	{
+		for _, b := range eA.Truth.Blocks {
+			for _, enc := range []string{"base64", "json", "base58"} {
+				for _, rw := range []string{"true", "false"} {
+					rpc(true, fmt.Sprintf(`{"jsonrpc":"2.0","id":1,"method":"getBlock","params":[%d,{"encoding":%q,"maxSupportedTransactionVersion":0,"rewards":%s}]}`, b.Slot, enc, rw))
+				}
+			}
+			m := wire(&old_faithful_grpc.BlockRequest{Slot: b.Slot}).(*old_faithful_grpc.BlockRequest)
+			grpcCase("GetBlock(content)", m, func(w *c08World) { w.multi.GetBlock(ctx, m) })
+		}
+		for _, tx := range eA.Truth.Txs {
+			for _, enc := range []string{"base64", "json"} {
+				rpc(true, fmt.Sprintf(`{"jsonrpc":"2.0","id":1,"method":"getTransaction","params":[%q,{"encoding":%q,"maxSupportedTransactionVersion":0}]}`, tx.Sig.String(), enc))
+			}
+			m := wire(&old_faithful_grpc.TransactionRequest{Signature: tx.Sig[:]}).(*old_faithful_grpc.TransactionRequest)
+			grpcCase("GetTransaction(content)", m, func(w *c08World) { w.multi.GetTransaction(ctx, m) })
+		}
+		first, last := eA.Truth.Blocks[0].Slot, eA.Truth.Blocks[len(eA.Truth.Blocks)-1].Slot
+		for _, inc := range [][]string{nil, {validAddr}, {cargen.Account(1).String(), cargen.Account(2).String()}} {
+			var bf *old_faithful_grpc.StreamBlocksFilter
+			var tf *old_faithful_grpc.StreamTransactionsFilter
+			if inc != nil {
+				bf = &old_faithful_grpc.StreamBlocksFilter{AccountInclude: inc}
+				tf = &old_faithful_grpc.StreamTransactionsFilter{AccountInclude: inc, Failed: &fa, Vote: &fa}
+			}
+			mb := wire(&old_faithful_grpc.StreamBlocksRequest{StartSlot: first, EndSlot: &last, Filter: bf}).(*old_faithful_grpc.StreamBlocksRequest)
+			grpcCase("StreamBlocks(content)", mb, func(w *c08World) { w.multi.StreamBlocks(mb, &vkBlockStream{vkStreamBase: vkBase0()}) })
+			mt := wire(&old_faithful_grpc.StreamTransactionsRequest{StartSlot: first, EndSlot: &last, Filter: tf}).(*old_faithful_grpc.StreamTransactionsRequest)
+			grpcCase("StreamTransactions(content)", mt, func(w *c08World) { w.multi.StreamTransactions(mt, &vkTxStream{vkStreamBase: vkBase0()}) })
+		}
+		for a := 0; a < 3; a++ {
+			rpc(true, fmt.Sprintf(`{"jsonrpc":"2.0","id":1,"method":"getSignaturesForAddress","params":[%q,{"limit":100}]}`, cargen.Account(a).String()))
 		}
 	}
 	// ---- a proxy for unknown methods / failed requests is configured (ListenerConfig): what the upstream answers is
